@@ -92,7 +92,8 @@ func c20Oracle(x *explore.Ctx, e *WEnv, fs *faultState, key func(string) string)
 		case strings.HasPrefix(n, "NextWriter("):
 			open = ac.Err == nil
 		case strings.HasPrefix(n, "Write(") || strings.HasPrefix(n, "WriteString(") || strings.HasPrefix(n, "io.Copy("):
-			open = open && ac.Err == nil
+			// (a failing source reader is not a write failure: the writer stays open)
+			open = open && (ac.Err == nil || ac.Err == errSrc)
 		default:
 			open = false
 		}
